@@ -22,7 +22,9 @@ RULE = ('(i) Exhaustive grid: every attribute (and time, and unknown / foreign a
         'must succeed and match the model, all others must raise ValueError/TypeError/AttributeError and leave vars(msg) '
         '(values and Python types) unchanged; after every step the message is valid, its type and attribute set unchanged. '
         'Non-trivial = a history with a rejected operation followed by an accepted mutation (grid: value at or just beyond '
-        'a limit or ill-typed); distinct by (type, ops).')
+        'a limit or ill-typed); distinct by (type, ops).'
+        ' Later additions: SysexData values, int subclasses and integral Fractions as values, results of dict()'
+        ' and the data list are the caller\'s, option names (skip_checks) inside message text are refused.')
 ASSUMPTIONS = ['skip_checks is never passed (excluded by the statement)', 'bool values are not generated',
                'NaN/inf times are not judged']
 
